@@ -57,7 +57,12 @@ ObjUses(x) == <<EMem(x, N_a), EMem(x, N_b),
                 ECall(N_h, <<x>>), ECall(N_string, <<x>>),
                 EList(<<x, Var(N_ob)>>), EList(<<Var(N_oba), x>>),
                 ECall(N_eqeq, <<EList(<<x>>), EList(<<Var(N_ob)>>)>>)>>
-ObjProgs == Concat(Map1(ObjX, ObjUses)) \o ListX
+\* a monomorphic overload whose parameter holds a record nested in a record: the key of the overload table must not
+\* depend on the order in which ANY record, at any depth, lists its fields
+NestUses(x) == <<ECall(N_hn, <<EObj(<<EFld(N_o, x)>>)>>), Add(ECall(N_hn, <<EObj(<<EFld(N_o, x)>>)>>), EInt(1)),
+                 ECall(N_hn, <<ECall(N_id, <<EObj(<<EFld(N_o, x)>>)>>)>>)>>
+ObjProgs == Concat(Map1(ObjX, ObjUses)) \o ListX \o Concat(Map1(ObjLeaves, NestUses))
+              \o <<ECall(N_hn, <<Var(N_ob)>>), ECall(N_hn, <<EObj(<<EFld(N_o, EInt(1))>>)>>), ECall(N_hn, <<EObj(<<EFld(N_o, Var(N_od))>>)>>)>>
 
 (* ------------------------------------------------------------------ C02 *)
 Big(neg, d, r) == ENum([k |-> "big", neg |-> neg, d |-> d, r |-> r])
@@ -148,7 +153,7 @@ BigPool == <<TwoTo53,
              Big(FALSE, <<2>> \o Rep(0, 19), <<50>> \o Rep(48, 19)),
              ENum(NInt(1073741823)), PInf, NaNe>>
 BigOps1 == <<N_minus, N_abs, N_string, N_floor, N_round>>
-StrPool == <<S(<<>>), S(<<97>>), S(<<97, 98>>), S(<<233, 26195>>), S(<<97, 34, 98, 92>>), S(<<10, 9>>), S(<<128657>>),
+StrPool == <<S(<<>>), S(<<97>>), S(<<97, 98>>), S(<<233, 26195>>), S(<<97, 34, 98, 92>>), S(<<10, 9>>), S(<<128657>>), S(<<92, 110>>),
              Var(N_s), Var(N_u), Var(N_w)>>
 StrOps2 == <<N_plus, N_eqeq, N_ne, N_match>>
 BoolPool == <<EBool(TRUE), EBool(FALSE), Var(N_b), Var(N_c)>>
@@ -343,7 +348,9 @@ SameProg(x, y, scalar) ==
 SameNear == <<ENum(Fin(3, 0, -1)), ENum(Fin(3, 0, 1)), ENum(Fin(8, 0, -2)), Neg(ENum(Fin(3, 0, -1))), Neg(ENum(Fin(2, 0, 1))),
               EInt(2), EInt(3), EInt(7), EInt(8), Neg(EInt(2)), Neg(EInt(3))>>
 SameNums == <<EInt(0), EInt(1), ENum(Half(1)), ENum(Half(5)), Neg(EInt(1)), Neg(ENum(Half(5))), EInt(10), EInt(9), EInt(100)>> \o BigPool \o SameNear
-SameStrs == <<S(<<>>), S(<<97>>), S(<<97, 34, 98, 92>>), S(<<233>>), S(<<10>>), S(<<97, 98>>), S(<<49>>), Var(N_s)>>
+\* (a backslash spelling an escape next to the character the escape denotes: they must stay apart)
+SameStrs == <<S(<<>>), S(<<97>>), S(<<97, 34, 98, 92>>), S(<<233>>), S(<<10>>), S(<<97, 98>>), S(<<49>>), Var(N_s),
+              S(<<92, 110>>), S(<<92>>), S(<<92, 120, 48, 49>>), S(<<9>>), S(<<92, 116>>)>>
 SameBools == <<EBool(TRUE), EBool(FALSE), Var(N_b)>>
 SameTimes == <<ETime(0), ETime(86400), Var(N_tm), ECall(N_strtotime, <<S(<<64, 56, 54, 52, 48, 48>>)>>)>>
 SameLists == <<EList(<<EInt(1), EInt(2)>>), EList(<<EInt(2), EInt(1)>>), EList(<<EInt(1), EInt(2), EInt(1)>>), EList(<<ENum(Half(1))>>),
@@ -441,6 +448,23 @@ ConcProgs == <<
 \* goroutine g's own values of n, s, xs
 ConcOv(g) == <<BindV(N_n, VNum(NInt(g))), BindV(N_s, VStr(<<115, 48 + (g % 10)>>)),
                BindV(N_xs, IList(TList(TNum), <<VNum(NInt(g)), VNum(NInt(g + 1)), VNum(NInt(10 * g))>>))>>
+
+\* size families around the evaluation stack's initial capacity (42) and growth step: whole composite values are returned
+FNm(i) == <<102, 48 + (i \div 10), 48 + (i % 10)>>
+RECURSIVE RAdd(_)
+RAdd(k) == IF k = 0 THEN Var(N_n) ELSE Add(EInt(1), RAdd(k - 1))
+SizeProgs ==
+  Concat(Map1(<<41, 42, 43, 44, 85, 100, 543>>, LAMBDA n :
+     <<EList([i \in 1..n |-> EInt(i % 7)]), ESub(EList([i \in 1..n |-> EInt(i % 7)]), EInt(0)),
+       ECall(N_len, <<EList([i \in 1..n |-> IF i = 1 THEN Var(N_s) ELSE S(<<97>>)])>>),
+       ESub(EList([i \in 1..n |-> IF i = n THEN T(1, Var(N_n)) ELSE EInt(i % 5)]), EInt(n - 1))>>))
+    \o Concat(Map1(<<21, 22, 23, 45>>, LAMBDA n :
+     <<EMap([i \in 1..n |-> EPair(S(FNm(i)), EInt(i))]), ESub(EMap([i \in 1..n |-> EPair(S(FNm(i)), EInt(i))]), S(FNm(1)))>>))
+    \o Concat(Map1(<<42, 43, 44, 60>>, LAMBDA n :
+     <<EObj([i \in 1..n |-> EFld(FNm(i), EInt(i))]), EMem(EObj([i \in 1..n |-> EFld(FNm(i), EInt(i))]), FNm(1)),
+       EMem(EObj([i \in 1..n |-> EFld(FNm(i), EInt(i))]), FNm(n))>>))
+    \o Map1(<<40, 41, 42, 43, 44, 90>>, LAMBDA k : RAdd(k))
+    \o Map1(<<41, 43, 90>>, LAMBDA k : EList(<<RAdd(k), RAdd(k)>>))
 
 \* conditionals whose jump targets lie at and just beyond the 16-bit operand range (3 bytes per list element)
 BcBigProgs(size) ==
